@@ -18,48 +18,48 @@ import (
 	"github.com/TarsCloud/TarsGo/tars/util/endpoint"
 )
 
-type hmsg struct{ code uint32 }
+type c13Msg struct{ code uint32 }
 
-func (m hmsg) HashCode() uint32            { return m.code }
-func (m hmsg) HashType() selector.HashType { return selector.ConsistentHash }
-func (m hmsg) IsHash() bool                { return true }
+func (m c13Msg) HashCode() uint32            { return m.code }
+func (m c13Msg) HashType() selector.HashType { return selector.ConsistentHash }
+func (m c13Msg) IsHash() bool                { return true }
 
-type sEp struct {
+type c13Ep struct {
 	Host   string `json:"host"`
 	Port   int32  `json:"port"`
 	Weight int32  `json:"w"`
 	WType  int32  `json:"wt"`
 }
 
-func (e sEp) ep() endpoint.Endpoint {
+func (e c13Ep) ep() endpoint.Endpoint {
 	x := endpoint.Endpoint{Host: e.Host, Port: e.Port, Timeout: 3000, Istcp: 1, Weight: e.Weight, WeightType: e.WType, Proto: "tcp"}
 	x.Key = x.String()
 	return x
 }
-func (e sEp) coq() string {
+func (e c13Ep) coq() string {
 	return fmt.Sprintf("(mk %s %s %s %s)", hx([]byte(e.Host)), hx([]byte(e.ep().String())), coqZ(int64(e.Weight)), coqZ(int64(e.WType)))
 }
 
-type sOp struct {
+type c13Op struct {
 	Op    string   `json:"op"` // refresh add remove select
-	Eps   []sEp    `json:"eps,omitempty"`
+	Eps   []c13Ep    `json:"eps,omitempty"`
 	Ok    bool     `json:"ok"`
 	Codes []uint32 `json:"codes,omitempty"`
 	Obs   []string `json:"obs,omitempty"` // selected host, "" = error
 }
 
-type sCase struct {
+type c13Case struct {
 	Kind     string `json:"kind"` // rr random modhash conhash-ketama conhash-default | bswl
 	Weighted bool   `json:"weighted"`
-	Ops      []sOp  `json:"ops"`
-	Bswl     []sEp  `json:"bswl,omitempty"`
+	Ops      []c13Op  `json:"ops"`
+	Bswl     []c13Ep  `json:"bswl,omitempty"`
 	BswlObs  []int  `json:"bswl_obs,omitempty"`
 	PanicMsg string `json:"panic,omitempty"`
 	Points   string `json:"-"`
 	Class    string `json:"class"`
 }
 
-func newSelector(kind string, weighted bool) selector.Selector {
+func c13NewSelector(kind string, weighted bool) selector.Selector {
 	switch kind {
 	case "rr":
 		return roundrobin.New(weighted)
@@ -73,7 +73,7 @@ func newSelector(kind string, weighted bool) selector.Selector {
 	return consistenthash.New(weighted, consistenthash.DefaultHash)
 }
 
-func chRounds(weighted bool, w int32) int {
+func c13ChRounds(weighted bool, w int32) int {
 	x := 100
 	if weighted {
 		x = int(w)
@@ -89,9 +89,9 @@ func chRounds(weighted bool, w int32) int {
 }
 
 // the abstract set the property speaks about: hosts, first occurrence wins
-type absSet struct{ eps []sEp }
+type c13AbsSet struct{ eps []c13Ep }
 
-func (a *absSet) has(h string) bool {
+func (a *c13AbsSet) has(h string) bool {
 	for _, e := range a.eps {
 		if e.Host == h {
 			return true
@@ -99,7 +99,7 @@ func (a *absSet) has(h string) bool {
 	}
 	return false
 }
-func (a *absSet) refresh(l []sEp) {
+func (a *c13AbsSet) refresh(l []c13Ep) {
 	a.eps = nil
 	for _, e := range l {
 		if !a.has(e.Host) {
@@ -107,14 +107,14 @@ func (a *absSet) refresh(l []sEp) {
 		}
 	}
 }
-func (a *absSet) add(e sEp) bool {
+func (a *c13AbsSet) add(e c13Ep) bool {
 	if a.has(e.Host) {
 		return false
 	}
 	a.eps = append(a.eps, e)
 	return true
 }
-func (a *absSet) remove(e sEp) bool {
+func (a *c13AbsSet) remove(e c13Ep) bool {
 	for i, x := range a.eps {
 		if x.Host == e.Host {
 			a.eps = append(a.eps[:i:i], a.eps[i+1:]...)
@@ -124,7 +124,7 @@ func (a *absSet) remove(e sEp) bool {
 	return false
 }
 
-func expectedCounts(eps []sEp) (map[string]int, bool) {
+func c13ExpectedCounts(eps []c13Ep) (map[string]int, bool) {
 	if len(eps) == 0 {
 		return nil, false
 	}
@@ -158,7 +158,7 @@ func expectedCounts(eps []sEp) (map[string]int, bool) {
 	return out, true
 }
 
-func c13Run(c *sCase) (fs []Failure) {
+func c13Run(c *c13Case) (fs []Failure) {
 	defer func() {
 		if r := recover(); r != nil {
 			c.PanicMsg = fmt.Sprint(r)
@@ -171,7 +171,7 @@ func c13Run(c *sCase) (fs []Failure) {
 			l = append(l, e.ep())
 		}
 		c.BswlObs = selector.BuildStaticWeightList(l)
-		if cnt, ok := expectedCounts(c.Bswl); ok {
+		if cnt, ok := c13ExpectedCounts(c.Bswl); ok {
 			got := map[string]int{}
 			for _, i := range c.BswlObs {
 				got[c.Bswl[i].Host]++
@@ -192,8 +192,8 @@ func c13Run(c *sCase) (fs []Failure) {
 		}
 		return fs
 	}
-	s := newSelector(c.Kind, c.Weighted)
-	abs := &absSet{}
+	s := c13NewSelector(c.Kind, c.Weighted)
+	abs := &c13AbsSet{}
 	for i := range c.Ops {
 		o := &c.Ops[i]
 		switch o.Op {
@@ -227,7 +227,7 @@ func c13Run(c *sCase) (fs []Failure) {
 				}
 			}
 			for _, code := range o.Codes {
-				e, err := s.Select(hmsg{code})
+				e, err := s.Select(c13Msg{code})
 				h := e.Host
 				if err != nil {
 					h = ""
@@ -240,7 +240,7 @@ func c13Run(c *sCase) (fs []Failure) {
 					fs = append(fs, Failure{Sig: "selector/" + c.Kind + "/error-iff-none-eligible", Desc: fmt.Sprintf("Select error=%v with eligible endpoints=%v, set %v (op %d)", err, eligible, abs.eps, i)})
 				}
 				if c.Kind != "rr" && c.Kind != "random" && err == nil { // hash routing is a function of (code, set)
-					e2, _ := s.Select(hmsg{code})
+					e2, _ := s.Select(c13Msg{code})
 					if e2.Host != h {
 						fs = append(fs, Failure{Sig: "selector/" + c.Kind + "/not-deterministic", Desc: fmt.Sprintf("code %d routed to %s then %s with the set unchanged", code, h, e2.Host)})
 					}
@@ -248,7 +248,7 @@ func c13Run(c *sCase) (fs []Failure) {
 			}
 			n := len(abs.eps)
 			if c.Kind == "rr" && n > 0 {
-				if cnt, ok := expectedCounts(abs.eps); ok && c.Weighted {
+				if cnt, ok := c13ExpectedCounts(abs.eps); ok && c.Weighted {
 					total := 0
 					for _, v := range cnt {
 						total += v
@@ -266,7 +266,7 @@ func c13Run(c *sCase) (fs []Failure) {
 							}
 						}
 					}
-				} else if !c.Weighted || !allStatic(abs.eps) {
+				} else if !c.Weighted || !c13AllStatic(abs.eps) {
 					for st := 0; st+n <= len(o.Obs); st++ { // any n consecutive selections hit each endpoint exactly once
 						seen := map[string]bool{}
 						for _, h := range o.Obs[st : st+n] {
@@ -284,7 +284,7 @@ func c13Run(c *sCase) (fs []Failure) {
 	return fs
 }
 
-func allStatic(l []sEp) bool {
+func c13AllStatic(l []c13Ep) bool {
 	for _, e := range l {
 		if e.WType != 1 {
 			return false
@@ -294,7 +294,7 @@ func allStatic(l []sEp) bool {
 }
 
 // virtual-node table for the model: read from the implementation's ring after Refresh([e])
-func pointsTable(c *sCase) string {
+func c13PointsTable(c *c13Case) string {
 	if !strings.HasPrefix(c.Kind, "conhash") {
 		return "[]"
 	}
@@ -306,12 +306,12 @@ func pointsTable(c *sCase) string {
 	var parts []string
 	for _, o := range c.Ops {
 		for _, e := range o.Eps {
-			k := hk{e.Host, chRounds(c.Weighted, e.Weight)}
+			k := hk{e.Host, c13ChRounds(c.Weighted, e.Weight)}
 			if seen[k] {
 				continue
 			}
 			seen[k] = true
-			s := newSelector(c.Kind, c.Weighted).(*consistenthash.ConsistentHash)
+			s := c13NewSelector(c.Kind, c.Weighted).(*consistenthash.ConsistentHash)
 			s.Refresh([]endpoint.Endpoint{e.ep()})
 			keys, _ := s.VerifRing()
 			ks := make([]string, len(keys))
@@ -324,13 +324,13 @@ func pointsTable(c *sCase) string {
 	return "[" + strings.Join(parts, "; ") + "]"
 }
 
-var kindCoq = map[string]string{"rr": "RoundRobin", "random": "Random", "modhash": "ModHash", "conhash-ketama": "ConHash", "conhash-default": "ConHash"}
+var c13KindCoq = map[string]string{"rr": "RoundRobin", "random": "Random", "modhash": "ModHash", "conhash-ketama": "ConHash", "conhash-default": "ConHash"}
 
-func c13Coq(c *sCase) string {
+func c13Coq(c *c13Case) string {
 	if c.PanicMsg != "" {
 		return ""
 	}
-	coqEps := func(l []sEp) string {
+	coqEps := func(l []c13Ep) string {
 		p := make([]string, len(l))
 		for i, e := range l {
 			p[i] = e.coq()
@@ -369,24 +369,24 @@ func c13Coq(c *sCase) string {
 			ops = append(ops, fmt.Sprintf("OSelRun [%s] [%s]", strings.Join(cs, "; "), strings.Join(os, "; ")))
 		}
 	}
-	return fmt.Sprintf("inl (%s, %s, %s, [%s])", kindCoq[c.Kind], coqBool(c.Weighted), pointsTable(c), strings.Join(ops, ";\n   "))
+	return fmt.Sprintf("inl (%s, %s, %s, [%s])", c13KindCoq[c.Kind], coqBool(c.Weighted), c13PointsTable(c), strings.Join(ops, ";\n   "))
 }
 
-var hostPool = []string{"10.0.0.1", "10.0.0.2", "10.0.0.3", "10.0.0.4", "10.0.0.5", "10.0.0.6", "10.0.0.7", "10.0.0.8", "a", "ab", "b", "host-9", "host-10", "z.example"}
-var weightPool = []int32{1, 1, 2, 3, 5, 10, 11, 50, 99, 100, 101, 200, 1000, 1001, 7, 7, 100, 100}
-var hostileWeights = []int32{0, 0, -1, -200, -2147483648, 2147483647, 2147483646, 65536, 1 << 30}
+var c13HostPool = []string{"10.0.0.1", "10.0.0.2", "10.0.0.3", "10.0.0.4", "10.0.0.5", "10.0.0.6", "10.0.0.7", "10.0.0.8", "a", "ab", "b", "host-9", "host-10", "z.example"}
+var c13WeightPool = []int32{1, 1, 2, 3, 5, 10, 11, 50, 99, 100, 101, 200, 1000, 1001, 7, 7, 100, 100}
+var c13HostileWeights = []int32{0, 0, -1, -200, -2147483648, 2147483647, 2147483646, 65536, 1 << 30}
 
-func randEp(rng *rand.Rand, hosts int, mode string) sEp {
-	e := sEp{Host: hostPool[rng.Intn(hosts)], Port: int32(10000 + rng.Intn(3)), WType: 1, Weight: weightPool[rng.Intn(len(weightPool))]}
+func c13RandEp(rng *rand.Rand, hosts int, mode string) c13Ep {
+	e := c13Ep{Host: c13HostPool[rng.Intn(hosts)], Port: int32(10000 + rng.Intn(3)), WType: 1, Weight: c13WeightPool[rng.Intn(len(c13WeightPool))]}
 	switch mode {
 	case "hostile":
 		if rng.Intn(2) == 0 {
-			e.Weight = hostileWeights[rng.Intn(len(hostileWeights))]
+			e.Weight = c13HostileWeights[rng.Intn(len(c13HostileWeights))]
 		}
 	case "mixed":
 		e.WType = int32(rng.Intn(2))
 		if rng.Intn(4) == 0 {
-			e.Weight = hostileWeights[rng.Intn(len(hostileWeights))]
+			e.Weight = c13HostileWeights[rng.Intn(len(c13HostileWeights))]
 		}
 	case "conhash":
 		e.Weight = []int32{0, -5, 1, 3, 4, 5, 8, 40, 100, 101, 400}[rng.Intn(11)]
@@ -394,9 +394,9 @@ func randEp(rng *rand.Rand, hosts int, mode string) sEp {
 	return e
 }
 
-func genHistory(rng *rand.Rand, kind string, weighted bool, mode string, hashOnly bool) sCase {
-	c := sCase{Kind: kind, Weighted: weighted, Class: fmt.Sprintf("%s/w=%v/%s", kind, weighted, mode)}
-	hosts := 2 + rng.Intn(len(hostPool)-2)
+func c13GenHistory(rng *rand.Rand, kind string, weighted bool, mode string, hashOnly bool) c13Case {
+	c := c13Case{Kind: kind, Weighted: weighted, Class: fmt.Sprintf("%s/w=%v/%s", kind, weighted, mode)}
+	hosts := 2 + rng.Intn(len(c13HostPool)-2)
 	if rng.Intn(4) == 0 {
 		hosts = 1 + rng.Intn(3)
 	}
@@ -406,17 +406,17 @@ func genHistory(rng *rand.Rand, kind string, weighted bool, mode string, hashOnl
 		switch r := rng.Intn(10); {
 		case i == 0 && rng.Intn(4) != 0 || r == 0:
 			n := rng.Intn(hosts + 2)
-			var l []sEp
+			var l []c13Ep
 			for j := 0; j < n; j++ {
-				l = append(l, randEp(rng, hosts, mode))
+				l = append(l, c13RandEp(rng, hosts, mode))
 			}
-			c.Ops = append(c.Ops, sOp{Op: "refresh", Eps: l})
+			c.Ops = append(c.Ops, c13Op{Op: "refresh", Eps: l})
 			size = n
 		case r <= 2:
-			c.Ops = append(c.Ops, sOp{Op: "add", Eps: []sEp{randEp(rng, hosts, mode)}})
+			c.Ops = append(c.Ops, c13Op{Op: "add", Eps: []c13Ep{c13RandEp(rng, hosts, mode)}})
 			size++
 		case r <= 4:
-			c.Ops = append(c.Ops, sOp{Op: "remove", Eps: []sEp{randEp(rng, hosts, mode)}})
+			c.Ops = append(c.Ops, c13Op{Op: "remove", Eps: []c13Ep{c13RandEp(rng, hosts, mode)}})
 		default:
 			m := 1 + rng.Intn(2*size+4)
 			if kind == "rr" && weighted && rng.Intn(2) == 0 {
@@ -431,7 +431,7 @@ func genHistory(rng *rand.Rand, kind string, weighted bool, mode string, hashOnl
 					codes[j] = rng.Uint32()
 				}
 			}
-			c.Ops = append(c.Ops, sOp{Op: "select", Codes: codes})
+			c.Ops = append(c.Ops, c13Op{Op: "select", Codes: codes})
 		}
 	}
 	// always end with a selection run
@@ -439,14 +439,14 @@ func genHistory(rng *rand.Rand, kind string, weighted bool, mode string, hashOnl
 	for j := range codes {
 		codes[j] = rng.Uint32()
 	}
-	c.Ops = append(c.Ops, sOp{Op: "select", Codes: codes})
+	c.Ops = append(c.Ops, c13Op{Op: "select", Codes: codes})
 	return c
 }
 
 // for consistent hashing add the ring points, their predecessors and successors to the probed codes
-func addRingCodes(c *sCase) {
-	s := newSelector(c.Kind, c.Weighted)
-	abs := &absSet{}
+func c13AddRingCodes(c *c13Case) {
+	s := c13NewSelector(c.Kind, c.Weighted)
+	abs := &c13AbsSet{}
 	for i := range c.Ops {
 		o := &c.Ops[i]
 		switch o.Op {
@@ -475,23 +475,23 @@ func addRingCodes(c *sCase) {
 	}
 }
 
-func c13Gen(tier string, rng *rand.Rand) []sCase {
+func c13Gen(tier string, rng *rand.Rand) []c13Case {
 	n := 14
 	if tier == "thorough" {
 		n = 250
 	}
-	var cs []sCase
+	var cs []c13Case
 	for i := 0; i < n; i++ {
 		for _, k := range []string{"rr", "random", "modhash"} {
 			for _, w := range []bool{false, true} {
 				mode := []string{"plain", "hostile", "mixed"}[i%3]
-				cs = append(cs, genHistory(rng, k, w, mode, false))
+				cs = append(cs, c13GenHistory(rng, k, w, mode, false))
 			}
 		}
 		for _, k := range []string{"conhash-ketama", "conhash-default"} {
 			for _, w := range []bool{false, true} {
-				c := genHistory(rng, k, w, "conhash", false)
-				addRingCodes(&c)
+				c := c13GenHistory(rng, k, w, "conhash", false)
+				c13AddRingCodes(&c)
 				cs = append(cs, c)
 			}
 		}
@@ -499,21 +499,21 @@ func c13Gen(tier string, rng *rand.Rand) []sCase {
 	// BuildStaticWeightList directly
 	for i := 0; i < 6*n; i++ {
 		m := rng.Intn(9)
-		var l []sEp
+		var l []c13Ep
 		mode := []string{"plain", "plain", "hostile", "mixed"}[i%4]
 		for j := 0; j < m; j++ {
-			e := randEp(rng, len(hostPool), mode)
+			e := c13RandEp(rng, len(c13HostPool), mode)
 			if i%2 == 0 { // distinct hosts: the prescribed counts are per endpoint
-				e.Host = hostPool[j]
+				e.Host = c13HostPool[j]
 			}
 			l = append(l, e)
 		}
-		cs = append(cs, sCase{Kind: "bswl", Bswl: l, Class: fmt.Sprintf("bswl/%s/n%d", mode, m)})
+		cs = append(cs, c13Case{Kind: "bswl", Bswl: l, Class: fmt.Sprintf("bswl/%s/n%d", mode, m)})
 	}
-	fixed := [][]sEp{{{"a", 1, 0, 1}, {"b", 1, 0, 1}}, {{"a", 1, -200, 1}}, {{"a", 1, 2147483647, 1}, {"b", 1, 2147483647, 1}, {"c", 1, 2147483647, 1}, {"d", 1, 2147483647, 1}, {"e", 1, 2147483647, 1}, {"f", 1, 2147483647, 1}, {"g", 1, 2147483647, 1}, {"h", 1, 2147483647, 1}},
+	fixed := [][]c13Ep{{{"a", 1, 0, 1}, {"b", 1, 0, 1}}, {{"a", 1, -200, 1}}, {{"a", 1, 2147483647, 1}, {"b", 1, 2147483647, 1}, {"c", 1, 2147483647, 1}, {"d", 1, 2147483647, 1}, {"e", 1, 2147483647, 1}, {"f", 1, 2147483647, 1}, {"g", 1, 2147483647, 1}, {"h", 1, 2147483647, 1}},
 		{{"a", 1, 1, 1}, {"b", 1, 1000, 1}}, {{"a", 1, 5, 1}, {"b", 1, 5, 1}, {"ab", 1, 5, 1}}, {{"a", 1, -1, 1}, {"b", 1, 3, 1}}, {}}
 	for _, l := range fixed {
-		cs = append(cs, sCase{Kind: "bswl", Bswl: l, Class: "bswl/fixed"})
+		cs = append(cs, c13Case{Kind: "bswl", Bswl: l, Class: "bswl/fixed"})
 	}
 	return cs
 }
@@ -529,29 +529,29 @@ func c14Extra(tier string, rng *rand.Rand, res *Result) {
 		kind := []string{"conhash-ketama", "conhash-default"}[it%2]
 		weighted := it%4 >= 2
 		k := 2 + rng.Intn(9)
-		perm := rng.Perm(len(hostPool))[:k]
-		var set []sEp
+		perm := rng.Perm(len(c13HostPool))[:k]
+		var set []c13Ep
 		for _, p := range perm {
 			w := int32(100)
 			if weighted {
 				w = []int32{4, 8, 40, 100, 400}[rng.Intn(5)]
 			}
-			set = append(set, sEp{Host: hostPool[p], Port: 1, Weight: w, WType: 1})
+			set = append(set, c13Ep{Host: c13HostPool[p], Port: 1, Weight: w, WType: 1})
 		}
 		// history A: refresh with the set; history B: adds in another order, with detours (add + remove of others, refresh of a subset first)
-		a := newSelector(kind, weighted)
+		a := c13NewSelector(kind, weighted)
 		var l []endpoint.Endpoint
 		for _, e := range set {
 			l = append(l, e.ep())
 		}
 		a.Refresh(l)
-		b := newSelector(kind, weighted)
+		b := c13NewSelector(kind, weighted)
 		if rng.Intn(2) == 0 {
 			b.Refresh(l[:len(l)/2])
 		}
 		for _, p := range rng.Perm(len(set)) {
 			if rng.Intn(3) == 0 {
-				other := sEp{Host: "detour-" + fmt.Sprint(rng.Intn(3)), Port: 1, Weight: set[p].Weight, WType: 1}
+				other := c13Ep{Host: "detour-" + fmt.Sprint(rng.Intn(3)), Port: 1, Weight: set[p].Weight, WType: 1}
 				b.Add(other.ep())
 				b.Add(set[p].ep())
 				b.Remove(other.ep())
@@ -561,11 +561,11 @@ func c14Extra(tier string, rng *rand.Rand, res *Result) {
 		}
 		// remove one / add one
 		victim := set[rng.Intn(len(set))]
-		ar := newSelector(kind, weighted)
+		ar := c13NewSelector(kind, weighted)
 		ar.Refresh(l)
 		ar.Remove(victim.ep())
-		newcomer := sEp{Host: "newcomer", Port: 1, Weight: victim.Weight, WType: 1}
-		aa := newSelector(kind, weighted)
+		newcomer := c13Ep{Host: "newcomer", Port: 1, Weight: victim.Weight, WType: 1}
+		aa := c13NewSelector(kind, weighted)
 		aa.Refresh(l)
 		aa.Add(newcomer.ep())
 		keys, _ := a.(*consistenthash.ConsistentHash).VerifRing()
@@ -578,18 +578,18 @@ func c14Extra(tier string, rng *rand.Rand, res *Result) {
 		}
 		for _, code := range codes {
 			count++
-			ea, _ := a.Select(hmsg{code})
-			eb, _ := b.Select(hmsg{code})
+			ea, _ := a.Select(c13Msg{code})
+			eb, _ := b.Select(c13Msg{code})
 			if ea.Host != eb.Host {
 				res.Failures = append(res.Failures, Failure{Sig: "hash-routing/" + kind + "/history-dependent", Desc: fmt.Sprintf("two selectors holding the same set %v route code %d to %s and %s", set, code, ea.Host, eb.Host), Replay: map[string]interface{}{"set": set, "code": code}})
 				break
 			}
-			er, _ := ar.Select(hmsg{code})
+			er, _ := ar.Select(c13Msg{code})
 			if er.Host != ea.Host && ea.Host != victim.Host {
 				res.Failures = append(res.Failures, Failure{Sig: "hash-routing/" + kind + "/remove-not-minimal", Desc: fmt.Sprintf("removing %s re-routed code %d from %s to %s", victim.Host, code, ea.Host, er.Host), Replay: map[string]interface{}{"set": set, "code": code, "removed": victim}})
 				break
 			}
-			en, _ := aa.Select(hmsg{code})
+			en, _ := aa.Select(c13Msg{code})
 			if en.Host != ea.Host && en.Host != newcomer.Host {
 				res.Failures = append(res.Failures, Failure{Sig: "hash-routing/" + kind + "/add-not-minimal", Desc: fmt.Sprintf("adding %s moved code %d from %s to %s", newcomer.Host, code, ea.Host, en.Host), Replay: map[string]interface{}{"set": set, "code": code}})
 				break
@@ -600,12 +600,12 @@ func c14Extra(tier string, rng *rand.Rand, res *Result) {
 	res.Stats["history_independence_and_disruption_probes"] = count
 }
 
-func c14Gen(tier string, rng *rand.Rand) []sCase {
+func c14Gen(tier string, rng *rand.Rand) []c13Case {
 	n := 20
 	if tier == "thorough" {
 		n = 300
 	}
-	var cs []sCase
+	var cs []c13Case
 	for i := 0; i < n; i++ {
 		for _, k := range []string{"conhash-ketama", "conhash-default", "modhash"} {
 			for _, w := range []bool{false, true} {
@@ -613,8 +613,8 @@ func c14Gen(tier string, rng *rand.Rand) []sCase {
 				if k == "modhash" {
 					mode = []string{"plain", "mixed"}[i%2]
 				}
-				c := genHistory(rng, k, w, mode, true)
-				addRingCodes(&c)
+				c := c13GenHistory(rng, k, w, mode, true)
+				c13AddRingCodes(&c)
 				cs = append(cs, c)
 			}
 		}
@@ -623,13 +623,19 @@ func c14Gen(tier string, rng *rand.Rand) []sCase {
 }
 
 func init() {
-	mk := func(id, rule string, gen func(string, *rand.Rand) []sCase, extra func(string, *rand.Rand, *Result)) {
+	constGens = append(constGens, func() {
+		lo, hi := selector.VerifStaticWeightLimits()
+		fmt.Printf("Definition c_minStaticWeightLimit := %d.\n", lo)
+		fmt.Printf("Definition c_maxStaticWeightLimit := %d.\n", hi)
+		fmt.Printf("Definition c_ConHashVirtualNodes := %d.\n", selector.ConHashVirtualNodes)
+	})
+	mk := func(id, rule string, gen func(string, *rand.Rand) []c13Case, extra func(string, *rand.Rand, *Result)) {
 		props[id] = func(a Args) {
-			runProp(Prop[sCase]{
+			runProp(Prop[c13Case]{
 				ID: id, Require: "From TarsV Require Import Base.Hex Select.Selectors Select.Hist.", CaseType: "sel_case",
 				Mismatch: "failing_from sel_check", Corr: "Hist.sel_check (model selectors replayed over the observed history: results of Add/Remove, every selection; BuildStaticWeightList index list)",
 				Rule: rule, Shard: 40, Workers: 8, Gen: gen, Run: c13Run, Coq: c13Coq,
-				Class: func(c *sCase) string { return c.Class }, Extra: extra,
+				Class: func(c *c13Case) string { return c.Class }, Extra: extra,
 			}, a)
 		}
 	}
